@@ -345,6 +345,9 @@ class _EmbreeWrap:
         self.origin = scaled.min(axis=0)
         self.scale = float(scale)
         scaled = (scaled - self.origin) * self.scale
+        # bounding sphere of the scaled vertices
+        self.center = (scaled.min(axis=0) + scaled.max(axis=0)) / 2.0
+        self.radius = np.linalg.norm(scaled - self.center, axis=1).max() * 1.01
 
         self.scene = rtcore_scene.EmbreeScene()
         # assign the geometry to the scene
@@ -356,6 +359,11 @@ class _EmbreeWrap:
 
     def run(self, origins, normals, **kwargs):
         scaled = (np.array(origins, dtype=np.float64) - self.origin) * self.scale
+        # origins far from the mesh lose their position in the cast to 32 bit:
+        # nothing can be hit before the bounding sphere, so start from there
+        unit = np.asanyarray(normals, dtype=np.float64)
+        ahead = util.diagonal_dot(self.center - scaled, unit) - self.radius
+        scaled += unit * np.clip(ahead, 0.0, None).reshape((-1, 1))
 
         return self.scene.run(
             scaled.astype(_embree_dtype), normals.astype(_embree_dtype), **kwargs
